@@ -82,7 +82,20 @@ void *_ZNSo3putEc(void *os, u8 c) { os_cur = os; os_put(c); return os; }
 #ifdef DECL__ZNSo5writeEPKcl
 void *_ZNSo5writeEPKcl(void *os, u8 *s, u64 n) { os_cur = os; os_write(s, n); return os; }
 #endif
+#ifdef OS_NUM_HEX8
+/* harnesses whose only numeric output is `std::hex << std::setfill('0') << std::setw(8) << v`: at least 8 hex digits */
+static void os_hex8(u64 v)
+{
+  int started = 0;
+  for (int sh = 60; sh >= 0; sh -= 4) {
+    u8 d = (u8)((v >> sh) & 15);
+    if (d || started || sh < 32) { started = 1; os_put(d < 10 ? '0' + d : 'a' + d - 10); }
+  }
+}
+#define OS_NUM(name, T) void *name(void *os, T v) { os_cur = os; os_hex8((u64)v); return os; }
+#else
 #define OS_NUM(name, T) void *name(void *os, T v) { os_cur = os; os_put('#'); return os; }
+#endif
 #ifdef DECL__ZNSolsEm
 OS_NUM(_ZNSolsEm, u64)
 #endif
@@ -195,6 +208,19 @@ void _ZNSt14basic_ofstreamIcSt11char_traitsIcEE5closeEv(void *f)
 #endif
 #ifdef DECL__ZNSt14basic_ofstreamIcSt11char_traitsIcEED1Ev
 void _ZNSt14basic_ofstreamIcSt11char_traitsIcEED1Ev(void *f) { os_file_open = 0; }
+#endif
+#endif
+/* ---- std::ostringstream (capture mode): the text inserted since construction is what str() returns ---- */
+#if defined(OS_CAPTURE) && defined(HAVE_class_std____cxx11__basic_string)
+#ifdef DECL__ZNSt7__cxx1119basic_ostringstreamIcSt11char_traitsIcESaIcEEC1Ev
+static int64_t os_vt_sstream[6] = { 8, 0, 0, 0, 0, 0 };
+void _ZNSt7__cxx1119basic_ostringstreamIcSt11char_traitsIcESaIcEEC1Ev(void *o) { *(void **)o = (void *)&os_vt_sstream[3]; os_len = 0; }
+#endif
+#ifdef DECL__ZNSt7__cxx1119basic_ostringstreamIcSt11char_traitsIcESaIcEED1Ev
+void _ZNSt7__cxx1119basic_ostringstreamIcSt11char_traitsIcESaIcEED1Ev(void *o) { }
+#endif
+#ifdef DECL__ZNKSt7__cxx1119basic_ostringstreamIcSt11char_traitsIcESaIcEE3strEv
+void _ZNKSt7__cxx1119basic_ostringstreamIcSt11char_traitsIcESaIcEE3strEv(struct class_std____cxx11__basic_string *sret, void *o) { vs_make_n(sret, os_buf, os_len); }
 #endif
 #endif
 /* ---- the standard stream objects: an Itanium-ABI vptr whose vbase-offset slot (index -3) locates basic_ios ---- */
